@@ -83,6 +83,8 @@ impl PidFileLocking {
     }
 
     fn remove_file(&self) -> io::Result<()> {
+        #[cfg(fuellabs_sway_verif)]
+        verif::step("remove");
         match remove_file(&self.0) {
             Err(e) => {
                 if e.kind() != std::io::ErrorKind::NotFound {
@@ -97,12 +99,16 @@ impl PidFileLocking {
     /// Returns the PID of the owner of the current lock. If the PID is not longer active the lock
     /// file will be removed
     pub fn get_locker_pid(&self) -> Option<usize> {
+        #[cfg(fuellabs_sway_verif)]
+        verif::step("open_read");
         let fs = File::open(&self.0);
         if let Ok(mut file) = fs {
             let mut contents = String::new();
             file.read_to_string(&mut contents).ok();
             drop(file);
             if let Ok(pid) = contents.trim().parse::<usize>() {
+                #[cfg(fuellabs_sway_verif)]
+                verif::step("pid_probe");
                 return if Self::is_pid_active(pid) {
                     Some(pid)
                 } else {
@@ -127,11 +133,19 @@ impl PidFileLocking {
         self.release()?;
         if let Some(dir) = self.0.parent() {
             // Ensure the directory exists
+            #[cfg(fuellabs_sway_verif)]
+            verif::step("create_dir");
             create_dir_all(dir)?;
         }
 
+        #[cfg(fuellabs_sway_verif)]
+        verif::step("create");
         let mut fs = File::create(&self.0)?;
+        #[cfg(fuellabs_sway_verif)]
+        verif::step("write_pid");
         fs.write_all(std::process::id().to_string().as_bytes())?;
+        #[cfg(fuellabs_sway_verif)]
+        verif::step("sync");
         fs.sync_all()?;
         fs.flush()?;
         Ok(())
@@ -141,6 +155,8 @@ impl PidFileLocking {
     /// Returns a vector of paths that were cleaned up
     pub fn cleanup_stale_files() -> io::Result<Vec<PathBuf>> {
         let lock_dir = user_forc_directory().join(".lsp-locks");
+        #[cfg(fuellabs_sway_verif)]
+        verif::step("cleanup_read_dir");
         let entries = read_dir(&lock_dir)?;
         let mut cleaned_paths = Vec::new();
 
@@ -149,15 +165,23 @@ impl PidFileLocking {
             let path = entry.path();
             if let Some(ext) = path.extension().and_then(|ext| ext.to_str()) {
                 if ext == "lock" {
+                    #[cfg(fuellabs_sway_verif)]
+                    verif::step("cleanup_open_read");
                     if let Ok(mut file) = File::open(&path) {
                         let mut contents = String::new();
                         if file.read_to_string(&mut contents).is_ok() {
                             if let Ok(pid) = contents.trim().parse::<usize>() {
+                                #[cfg(fuellabs_sway_verif)]
+                                verif::step("cleanup_pid_probe");
                                 if !Self::is_pid_active(pid) {
+                                    #[cfg(fuellabs_sway_verif)]
+                                    verif::step("cleanup_remove_dead");
                                     remove_file(&path)?;
                                     cleaned_paths.push(path);
                                 }
                             } else {
+                                #[cfg(fuellabs_sway_verif)]
+                                verif::step("cleanup_remove_unparsable");
                                 remove_file(&path)?;
                                 cleaned_paths.push(path);
                             }
@@ -167,6 +191,28 @@ impl PidFileLocking {
             }
         }
         Ok(cleaned_paths)
+    }
+}
+
+/// Verification seam (only compiled with `--cfg fuellabs_sway_verif`): a step point in front of
+/// every file-system operation of the flag protocol, so that a harness can interleave several
+/// processes deterministically. Without an installed callback a step is a no-op.
+#[cfg(fuellabs_sway_verif)]
+pub mod verif {
+    use std::sync::OnceLock;
+
+    type StepFn = Box<dyn Fn(&'static str) + Send + Sync>;
+    static STEP: OnceLock<StepFn> = OnceLock::new();
+
+    /// Installs the process-wide step callback (first call wins).
+    pub fn set_step(f: StepFn) {
+        let _ = STEP.set(f);
+    }
+
+    pub(super) fn step(label: &'static str) {
+        if let Some(f) = STEP.get() {
+            f(label);
+        }
     }
 }
 
